@@ -7,6 +7,7 @@ from amaranth.hdl import Module, Signal, Shape, Value, ClockDomain, signed, unsi
 from amaranth.lib import data, enum as aenum
 from amaranth.sim import Simulator
 
+from vlib.reuse import elaborated_before
 from vlib.runner import Part, Mismatch, HarnessError
 from vlib.gen_expr import INT, BOOL, PICK
 
@@ -395,6 +396,8 @@ def layout_body(ctx, case):
             idx = Signal(range(f[2]), name="idx")
             dyn = (p, f, o, idx, follow(view, p)[idx])
             m.d.comb += Signal(width(f[1]) or 1, name="dyn_keep").eq(Value.cast(dyn[4]))
+        if elaborated_before(case, m):
+            ctx.tally("reuse:design-elaborated-before")
         sim = Simulator(m)
         fail = []
         nread = [0]
